@@ -376,6 +376,8 @@ func (d *BFD) DecodeFromBytes(data []byte, df gopacket.DecodeFeedback) error {
 	data, d.RequiredMinRxInterval = data[4:], BFDTimeInterval(binary.BigEndian.Uint32(data[:4]))
 	data, d.RequiredMinEchoRxInterval = data[4:], BFDTimeInterval(binary.BigEndian.Uint32(data[:4]))
 
+	// a reused layer must not keep the authentication header of an earlier packet
+	d.AuthHeader = nil
 	if d.AuthPresent && (len(data) > 2) {
 		d.AuthHeader = &BFDAuthHeader{}
 		data, d.AuthHeader.AuthType = data[1:], BFDAuthType(data[0])
